@@ -130,7 +130,10 @@ class Check:
         if not new:
             for name, spec in self.expect.items():
                 mn = spec["min"] if isinstance(spec, dict) else spec
-                got = self.counts.get(name, 0)
+                if name.startswith("rule:"):
+                    got = sum(1 for o in self.obligations if o["rule"] == name[5:])
+                else:
+                    got = self.counts.get(name, 0)
                 if got < mn:
                     raise AnalysisBroken("instance count for '%s' is %d, below the confirmed minimum %d (%s)" % (
                         name, got, mn, spec.get("why", "") if isinstance(spec, dict) else ""))
